@@ -54,6 +54,11 @@ def random_latspec(rng):
         return {"kind": "par", "args": [a, a, c, 90.0, 90.0, 120.0]}
     while True:
         al, be, ga = (round(rng.uniform(55, 125), 2) for _ in range(3))
+        if k > 0.45 and k < 0.55:
+            # the angles lattice.py special-cases through its exact cosine table (cosd(x), sind(x) = cosd(90 - x))
+            sp = [rng.choice([30.0, 60.0, 120.0, 150.0]), al, be]
+            rng.shuffle(sp)
+            al, be, ga = sp
         ca, cb, cg = (math.cos(math.radians(x)) for x in (al, be, ga))
         if 1 + 2 * ca * cb * cg - ca * ca - cb * cb - cg * cg > 0.05:
             break
